@@ -36,7 +36,7 @@
    C12 for DTLS 1.3 (CompleteOnlyWhenAllFragments). *)
 EXTENDS Integers, Sequences, FiniteSets, TLC, Json
 
-CONSTANTS MaxDrop, MaxDup, MaxTimeouts, BackoffCap, Cap, Gen,
+CONSTANTS MaxDrop, MaxDup, MaxReorder, MaxTimeouts, BackoffCap, QMax, QuietTimers, Gen,
           SzSH, SzEE, SzC0, SzC1, SzCV, SzFIN, Limit,     \* record sizes and the packing limit (bytes)
           SelectiveAck,   \* TRUE = the code: acknowledged fragments leave the flight.  FALSE: the whole flight is always re-sent
           AckOnlyReceived \* TRUE = the code.  FALSE: the client acknowledges the whole flight as soon as it holds the ServerHello
@@ -79,20 +79,21 @@ VARIABLES st, fl, retx, bk, est,
           owe,     \* client: fragments whose records are to be acknowledged
           seenT,   \* client: a NewSessionTicket was processed
           tick,    \* server: "none" | "pending"
-          net,     \* datagram content -> [n, d, s]  (normal copies, duplicated copies, stale twins)
-          drops, dups, touts, emits, cause, hist
-vars == <<st, fl, retx, bk, est, gotCH, gotF5, pend, have, queue, owe, seenT, tick, net, drops, dups, touts, emits, cause, hist>>
-viewv == <<st, fl, retx, bk, est, gotCH, gotF5, pend, have, queue, owe, seenT, tick, net, drops, dups, touts, emits, cause>>
+          q,       \* network: per direction ("c2s", "s2c") the datagrams in flight in emission order, each [k, c] with
+                   \* c = "n" (one copy) or "d" (the network duplicated it: delivering it leaves a stale twin)
+          stale,   \* per direction: number of stale twins (same record numbers: the replay window discards them)
+          drops, dups, reorders, touts, emits, cause, hist
+vars == <<st, fl, retx, bk, est, gotCH, gotF5, pend, have, queue, owe, seenT, tick, q, stale, drops, dups, reorders, touts, emits, cause, hist>>
+viewv == <<st, fl, retx, bk, est, gotCH, gotF5, pend, have, queue, owe, seenT, tick, q, stale, drops, dups, reorders, touts, emits, cause>>
 
-Zero == [n |-> 0, d |-> 0, s |-> 0]
-Cnt(nt, k) == IF k \in DOMAIN nt THEN nt[k] ELSE Zero
-SetCnt(nt, k, v) == IF v = Zero THEN [x \in DOMAIN nt \ {k} |-> nt[x]]
-                    ELSE [x \in DOMAIN nt \cup {k} |-> IF x = k THEN v ELSE nt[x]]
-PutK(nt, k) == LET c == Cnt(nt, k) IN IF c.n + c.d < Cap THEN SetCnt(nt, k, [c EXCEPT !.n = @ + 1]) ELSE nt
+Dirs == {"c2s", "s2c"}
+DirOf(e) == IF e = "c" THEN "c2s" ELSE "s2c"
+\* emissions join the queue of their direction in order; beyond QMax datagrams in flight the network loses them
 RECURSIVE PutAll(_, _)
-PutAll(nt, ks) == IF ks = <<>> THEN nt ELSE PutAll(PutK(nt, Head(ks)), Tail(ks))
-Take(nt, k, c) == LET v == Cnt(nt, k) IN
-                  IF c = "n" THEN SetCnt(nt, k, [v EXCEPT !.n = @ - 1]) ELSE SetCnt(nt, k, [v EXCEPT !.d = @ - 1, !.s = @ + 1])
+PutAll(qq, ks) == IF ks = <<>> THEN qq
+                  ELSE LET d == DirOf(Sender(Head(ks))) IN
+                       PutAll(IF Len(qq[d]) < QMax THEN [qq EXCEPT ![d] = Append(@, [k |-> Head(ks), c |-> "n"])] ELSE qq, Tail(ks))
+RemoveAt(sq, i) == SubSeq(sq, 1, i - 1) \o SubSeq(sq, i + 1, Len(sq))
 Bump(b) == IF b < BackoffCap THEN b + 1 ELSE b
 Done == est["c"] /\ est["s"]
 
@@ -165,47 +166,53 @@ ReactC(k) ==
          ELSE same
     [] OTHER -> same
 
-Deliver(k, c) ==
-  /\ ~Done
-  /\ k \in DOMAIN net /\ (IF c = "n" THEN net[k].n > 0 ELSE net[k].d > 0)
-  /\ IF Sender(k) = "c"
-     THEN LET r == ReactS(k) IN
-          /\ fl' = [fl EXCEPT !["s"] = r.fl] /\ st' = [st EXCEPT !["s"] = r.st] /\ retx' = [retx EXCEPT !["s"] = r.retx]
-          /\ bk' = [bk EXCEPT !["s"] = r.bk] /\ est' = [est EXCEPT !["s"] = r.est]
-          /\ gotCH' = r.gotCH /\ gotF5' = r.gotF5 /\ pend' = r.pend /\ tick' = r.tick
-          /\ net' = PutAll(Take(net, k, c), r.out) /\ emits' = r.out
-          /\ UNCHANGED <<have, queue, owe, seenT>>
-     ELSE LET r == ReactC(k) IN
-          /\ fl' = [fl EXCEPT !["c"] = r.fl] /\ st' = [st EXCEPT !["c"] = r.st] /\ retx' = [retx EXCEPT !["c"] = r.retx]
-          /\ bk' = [bk EXCEPT !["c"] = r.bk] /\ est' = [est EXCEPT !["c"] = r.est]
-          /\ have' = r.have /\ queue' = r.queue /\ owe' = r.owe /\ seenT' = r.seenT
-          /\ net' = PutAll(Take(net, k, c), r.out) /\ emits' = r.out
-          /\ UNCHANGED <<gotCH, gotF5, pend, tick>>
+\* the datagram at position i of direction d is delivered; anything but the head costs one unit of the reordering budget
+Deliver(d, i) ==
+  /\ ~Done /\ i \in 1..Len(q[d])
+  /\ (i > 1 => reorders < MaxReorder)
+  /\ reorders' = IF i > 1 THEN reorders + 1 ELSE reorders
+  /\ LET k == q[d][i].k
+         rest == [q EXCEPT ![d] = RemoveAt(@, i)] IN
+     /\ stale' = IF q[d][i].c = "d" THEN [stale EXCEPT ![d] = @ + 1] ELSE stale
+     /\ IF d = "c2s"
+        THEN LET r == ReactS(k) IN
+             /\ fl' = [fl EXCEPT !["s"] = r.fl] /\ st' = [st EXCEPT !["s"] = r.st] /\ retx' = [retx EXCEPT !["s"] = r.retx]
+             /\ bk' = [bk EXCEPT !["s"] = r.bk] /\ est' = [est EXCEPT !["s"] = r.est]
+             /\ gotCH' = r.gotCH /\ gotF5' = r.gotF5 /\ pend' = r.pend /\ tick' = r.tick
+             /\ q' = PutAll(rest, r.out) /\ emits' = r.out
+             /\ UNCHANGED <<have, queue, owe, seenT>>
+        ELSE LET r == ReactC(k) IN
+             /\ fl' = [fl EXCEPT !["c"] = r.fl] /\ st' = [st EXCEPT !["c"] = r.st] /\ retx' = [retx EXCEPT !["c"] = r.retx]
+             /\ bk' = [bk EXCEPT !["c"] = r.bk] /\ est' = [est EXCEPT !["c"] = r.est]
+             /\ have' = r.have /\ queue' = r.queue /\ owe' = r.owe /\ seenT' = r.seenT
+             /\ q' = PutAll(rest, r.out) /\ emits' = r.out
+             /\ UNCHANGED <<gotCH, gotF5, pend, tick>>
   /\ cause' = IF emits' = <<>> THEN "none" ELSE "recv"
   /\ UNCHANGED <<drops, dups, touts>>
 
-DeliverStale(k) ==
-  /\ ~Done /\ k \in DOMAIN net /\ net[k].s > 0
-  /\ net' = SetCnt(net, k, [net[k] EXCEPT !.s = @ - 1])
+DeliverStale(d) ==
+  /\ ~Done /\ stale[d] > 0
+  /\ stale' = [stale EXCEPT ![d] = @ - 1]
   /\ emits' = <<>> /\ cause' = "none"
-  /\ UNCHANGED <<st, fl, retx, bk, est, gotCH, gotF5, pend, have, queue, owe, seenT, tick, drops, dups, touts>>
+  /\ UNCHANGED <<st, fl, retx, bk, est, gotCH, gotF5, pend, have, queue, owe, seenT, tick, q, drops, dups, reorders, touts>>
 
-Drop(k, c) ==
-  /\ ~Done /\ drops < MaxDrop /\ k \in DOMAIN net
-  /\ CASE c = "n" -> net[k].n > 0 /\ net' = SetCnt(net, k, [net[k] EXCEPT !.n = @ - 1])
-       [] c = "d" -> net[k].d > 0 /\ net' = SetCnt(net, k, [net[k] EXCEPT !.d = @ - 1, !.n = @ + 1])
-       [] c = "s" -> net[k].s > 0 /\ net' = SetCnt(net, k, [net[k] EXCEPT !.s = @ - 1])
+Drop(d, i) ==
+  /\ ~Done /\ drops < MaxDrop /\ i \in 1..Len(q[d])
+  /\ q' = [q EXCEPT ![d] = RemoveAt(@, i)]
   /\ drops' = drops + 1 /\ emits' = <<>> /\ cause' = "none"
-  /\ UNCHANGED <<st, fl, retx, bk, est, gotCH, gotF5, pend, have, queue, owe, seenT, tick, dups, touts>>
+  /\ UNCHANGED <<st, fl, retx, bk, est, gotCH, gotF5, pend, have, queue, owe, seenT, tick, stale, dups, reorders, touts>>
 
-Dup(k) ==
-  /\ ~Done /\ dups < MaxDup /\ k \in DOMAIN net /\ net[k].n > 0
-  /\ net' = SetCnt(net, k, [net[k] EXCEPT !.n = @ - 1, !.d = @ + 1]) /\ dups' = dups + 1
+Dup(d, i) ==
+  /\ ~Done /\ dups < MaxDup /\ i \in 1..Len(q[d]) /\ q[d][i].c = "n"
+  /\ q' = [q EXCEPT ![d][i].c = "d"] /\ dups' = dups + 1
   /\ emits' = <<>> /\ cause' = "none"
-  /\ UNCHANGED <<st, fl, retx, bk, est, gotCH, gotF5, pend, have, queue, owe, seenT, tick, drops, touts>>
+  /\ UNCHANGED <<st, fl, retx, bk, est, gotCH, gotF5, pend, have, queue, owe, seenT, tick, stale, drops, reorders, touts>>
 
+\* QuietTimers: a retransmission timer fires only when nothing is in flight (timers are slow compared with the network);
+\* FALSE also explores premature time-outs
 Timeout(e) ==
   /\ ~Done
+  /\ (QuietTimers => (q["c2s"] = <<>> /\ q["s2c"] = <<>>))
   /\ (MaxTimeouts < 100 => touts < MaxTimeouts)
   /\ touts' = IF MaxTimeouts < 100 THEN touts + 1 ELSE touts
   /\ LET out == IF st[e] = "Waiting"
@@ -213,36 +220,36 @@ Timeout(e) ==
                       ELSE IF e = "c" THEN (IF fl["c"] = "F1" THEN << <<"CH">> >> ELSE << <<"FIN5">> >>)
                       ELSE IF fl["s"] = "F4" THEN ServerFlight ELSE <<>>)
                 ELSE IF e = "s" /\ tick = "pending" THEN << <<"T">> >> ELSE <<>>
-     IN /\ net' = PutAll(net, out) /\ emits' = out
+     IN /\ q' = PutAll(q, out) /\ emits' = out
         /\ cause' = IF out = <<>> THEN "none" ELSE "timer"
         /\ bk' = IF st[e] = "Waiting" /\ retx[e] THEN [bk EXCEPT ![e] = Bump(@)] ELSE bk
-  /\ UNCHANGED <<st, fl, retx, est, gotCH, gotF5, pend, have, queue, owe, seenT, tick, drops, dups>>
+  /\ UNCHANGED <<st, fl, retx, est, gotCH, gotF5, pend, have, queue, owe, seenT, tick, stale, drops, dups, reorders>>
 
 Init ==
   /\ st = [e \in E |-> "Waiting"] /\ fl = [e \in E |-> IF e = "c" THEN "F1" ELSE "F0"]
   /\ retx = [e \in E |-> TRUE] /\ bk = [e \in E |-> 0] /\ est = [e \in E |-> FALSE]
   /\ gotCH = FALSE /\ gotF5 = FALSE /\ pend = {} /\ have = {} /\ queue = {} /\ owe = {} /\ seenT = FALSE /\ tick = "none"
-  /\ net = [k \in {<<"CH">>} |-> [n |-> 1, d |-> 0, s |-> 0]]
-  /\ drops = 0 /\ dups = 0 /\ touts = 0 /\ emits = << <<"CH">> >> /\ cause = "start" /\ hist = <<>>
+  /\ q = [d \in Dirs |-> IF d = "c2s" THEN << [k |-> <<"CH">>, c |-> "n"] >> ELSE <<>>]
+  /\ stale = [d \in Dirs |-> 0]
+  /\ drops = 0 /\ dups = 0 /\ reorders = 0 /\ touts = 0 /\ emits = << <<"CH">> >> /\ cause = "start" /\ hist = <<>>
 
 Names(ds) == [i \in 1..Len(ds) |-> Name(ds[i])]
 PostP == [cst |-> st'["c"], sst |-> st'["s"], cfl |-> fl'["c"], sfl |-> fl'["s"], cest |-> est'["c"], sest |-> est'["s"],
           cbk |-> bk'["c"], sbk |-> bk'["s"], emits |-> Names(emits'),
-          pend |-> Names(<< Ordered(pend') >>), have |-> Names(<< Ordered(have') >>)]
-Log(a, x) == hist' = Append(hist, [act |-> a, arg |-> x, post |-> PostP])
+          pend |-> Name(Ordered(pend')), have |-> Name(Ordered(have')), owe |-> Name(Ordered(owe')),
+          qc2s |-> [i \in 1..Len(q'["c2s"]) |-> Name(q'["c2s"][i].k)], qs2c |-> [i \in 1..Len(q'["s2c"]) |-> Name(q'["s2c"][i].k)]]
+Log(a, d, i, nm) == hist' = Append(hist, [act |-> a, dir |-> d, pos |-> i, name |-> nm, post |-> PostP])
 
-Next == \/ \E k \in DOMAIN net : \/ \E c \in {"n", "d"} : Deliver(k, c) /\ Log("Deliver", Name(k) \o "/" \o c)
-                                 \/ DeliverStale(k) /\ Log("Deliver", Name(k) \o "/s")
-                                 \/ \E c \in {"n", "d", "s"} : Drop(k, c) /\ Log("Drop", Name(k) \o "/" \o c)
-                                 \/ Dup(k) /\ Log("Dup", Name(k))
-        \/ \E e \in E : Timeout(e) /\ Log("Timeout", e)
+NetStep(d, i) == \/ Deliver(d, i) /\ Log("Deliver", d, i, Name(q[d][i].k))
+                 \/ Drop(d, i) /\ Log("Drop", d, i, Name(q[d][i].k))
+                 \/ Dup(d, i) /\ Log("Dup", d, i, Name(q[d][i].k))
+Next == \/ \E d \in Dirs : \E i \in 1..Len(q[d]) : NetStep(d, i)
+        \/ \E d \in Dirs : DeliverStale(d) /\ Log("Stale", d, 0, "")
+        \/ \E e \in E : Timeout(e) /\ Log("Timeout", e, 0, "")
 
-\* fairness: timers keep firing; a datagram that the receiver can PROCESS and that stays available is eventually delivered.
-\* Acknowledgements under the application keys are excluded (a server in flight 4 merely queues them).
-Useful(k) == k[1] # "A3"
-Fair == /\ \A e \in E : WF_vars(Timeout(e) /\ Log("Timeout", e))
-        /\ \A e \in E : SF_vars(\E k \in DOMAIN net, c \in {"n", "d"} :
-                                   Useful(k) /\ Sender(k) = Peer(e) /\ Deliver(k, c) /\ Log("Deliver", Name(k) \o "/" \o c))
+\* fairness: timers keep firing and the head of each direction is eventually delivered
+Fair == /\ \A e \in E : WF_vars(Timeout(e) /\ Log("Timeout", e, 0, ""))
+        /\ \A d \in Dirs : WF_vars(q[d] # <<>> /\ Deliver(d, 1) /\ Log("Deliver", d, 1, Name(q[d][1].k)))
 Spec == Init /\ [][Next]_vars /\ Fair
 
 -----------------------------------------------------------------------------
@@ -254,7 +261,7 @@ ServerCompletionSound == est["s"] => gotF5
 ClientCompletionSound == est["c"] => (have = FragSet /\ est["s"])
 (* acknowledgement soundness: the client acknowledges only what it holds; the server forgets only what was acknowledged,
    hence whatever left the server's flight is held by the client *)
-AckSound == \A k \in DOMAIN net : k[1] \in {"A2", "A3"} => (SetOf(Tail(k)) \ {"T"}) \subseteq have
+AckSound == \A i \in 1..Len(q["c2s"]) : LET k == q["c2s"][i].k IN k[1] \in {"A2", "A3"} => (SetOf(Tail(k)) \ {"T"}) \subseteq have
 ForgottenIsHeld == gotCH => (FragSet \ pend) \subseteq have
 (* C17: selective retransmission - a server datagram emitted after the first transmission carries no acknowledged fragment *)
 SelectiveRetransmit ==
@@ -268,7 +275,7 @@ TimerLaw13F ==
 AckNeverOnTimer == [][(\E i \in 1..Len(emits') : emits'[i][1] \in {"A2", "A3", "AS"}) => cause' = "recv"]_vars
 (* C17: what one event makes an endpoint emit is bounded by the flight size plus one acknowledgement *)
 BoundedReaction == Len(emits) <= Len(Pack(FragSet)) + 1
-TypeOK == \A k \in DOMAIN net : net[k].n + net[k].d <= Cap /\ net[k] # Zero
+TypeOK == \A d \in Dirs : Len(q[d]) <= QMax /\ \A i \in 1..Len(q[d]) : Sender(q[d][i].k) = (IF d = "c2s" THEN "c" ELSE "s")
 
 EmitEdge == Gen => PrintT(ToJson([steps |-> hist']))
 =============================================================================
